@@ -289,6 +289,13 @@ func cmdC14Rand(args []string) {
 		for i, s := range set {
 			spelled[i] = randCase(rng, s)
 		}
+		// the configured LIST is not a set: some names twice (in another letter case), any order
+		for _, s := range set {
+			if rng.Intn(3) == 0 {
+				spelled = append(spelled, randCase(rng, s))
+			}
+		}
+		rng.Shuffle(len(spelled), func(i, j int) { spelled[i], spelled[j] = spelled[j], spelled[i] })
 		h := acrhHandler(spelled)
 		sets++
 		setb := make([][]int, len(set))
